@@ -4,8 +4,9 @@ Per generated method: one base run without edits (per-tick digests), then one ed
 script (1-3 edits) is generated on-line from the method state reported at edit time. Oracle parts (DESIGN.md C01):
   (i)   per-line start counts across the edits, from node-state descriptor events keyed by node id
   (ii)  method state superset at the call boundary of Engine.set_method (reported state and the interpreter's own nodes)
-  (iii) an edit that changes a started/completed line raises MethodEditError, leaves a deep observable snapshot
-        unchanged, and the continuation equals the base run tick by tick
+  (iii) an edit that changes a started/completed line (its text, its indentation, blanking / commenting it out) or that
+        types an instruction into a blank/comment line the run has already passed raises MethodEditError, leaves a deep
+        observable snapshot and the reported method state unchanged, and the continuation equals the base run tick by tick
   (iv)  differential: a second engine runs the final method from the start; per line id the effects must agree
 plus "merge vs set chosen correctly". The known defect "the merge carries nothing over" is recognised by a narrow
 classifier at the call boundary; the case is not evaluated further after it (everything later is its consequence)."""
@@ -29,15 +30,28 @@ RULE = ("seeded P-code generator (Mark, UOD commands of 1-5 ticks, Wait, thresho
         "tick of the run (quick: every 2nd) x on-line edit script of 1-3 edits from {append at end, append at end of an "
         "open scope, change / insert before / delete a not-yet-started line, change a started line, change a completed "
         "line, re-indent a started / a completed line by +4 or -4 columns (text otherwise equal: only the scope it "
-        "belongs to changes), change only trailing blanks or the spacing after ':' of a started / completed line} "
-        "with 0-4 ticks between edits. distinct = (method shape, edit kinds, progress bucket at the first edit); "
+        "belongs to changes), change only trailing blanks or the spacing after ':' of a started / completed line, "
+        "add / change / remove the trailing comment of a started / completed line, blank out or comment out a started / "
+        "completed instruction line, type an instruction into (or uncomment) a blank / whitespace-only / comment-only "
+        "line the run has already passed, change such a passed line without making it an instruction, the same changes "
+        "on lines the run has not reached incl. the trailing whitespace at the end of the method}; 60 % of the methods "
+        "are decorated with trailing comments, whitespace-only lines and extra blank / comment-only / commented-out "
+        "lines; 0-4 ticks between edits. distinct = (method shape, edit kinds, progress bucket at the first edit); "
         "non-trivial = at least one line had started and at least one had not when the first edit arrived")
 ASSUMPTIONS = [
     "which lines are started is read from Engine.method_manager.get_method_state() at edit time and cross-checked with "
     "the started/completed/failed flags of the interpreter's own program nodes; candidates for 'not yet started' must "
     "be unstarted in both views, candidates for 'started' must be started in both",
-    "blank/comment lines are never edited and their state is not part of the superset check (the code treats "
-    "whitespace specially, the statement does not mention it)",
+    "blank / whitespace-only / comment-only lines: the run has PASSED such a line when a later line of the same scope "
+    "(a later sibling in the interpreter's own tree, outside Alarm/macro bodies) has started in the reported state and "
+    "in the interpreter's nodes - a definition that does not depend on how the engine flags or reports the blank line "
+    "itself. An edit that turns a passed line into an instruction must be rejected like a change of a started line: if "
+    "it were accepted the run could not continue 'as if the edited method had been loaded from the start' (that run "
+    "executes the new instruction before lines which have already run). Changes of a passed blank/comment line that do "
+    "not make it an instruction, and changes of the trailing comment of a started line, change no meaning: counted, not "
+    "judged (rejected: MethodEditError and unchanged continuation; accepted: judged like every accepted edit). The "
+    "trailing whitespace at the end of the method is never passed (editable by design): typing into it is a valid edit. "
+    "The state of blank/comment lines is not part of the superset check",
     "an engine that rejects an edit which leaves every started line unchanged (e.g. any change inside a macro that has "
     "been called) is counted, not judged: the statement forbids re-running and losing progress, not refusing",
     "differential comparison is untimed: per line id the number of starts and Mark appends outside Alarm/macro bodies, "
@@ -487,7 +501,7 @@ def make_edit(rnd: random.Random, run: Run, counter: list) -> dict | None:
                         "how": "indent+4" if delta > 0 else "dedent-4", "cls": cls}
             if kind.startswith("ws_only_"):
                 # textual difference without a difference in meaning for sure: not judged either way (expect_reject None)
-                how = rnd.choice(["trailing", "trailing2", "inner", "inner", "cmt"])
+                how = rnd.choice(["trailing", "trailing", "trailing2", "inner", "inner", "cmt"])
                 how = "cmt" if force_cmt else how
                 body = old[ind:]
                 if how == "cmt":
